@@ -300,6 +300,12 @@ impl<VM: VMBinding> MonotonePageResource<VM> {
                 if top >= chunk_start && top < chunk_end {
                     // This is the last live chunk
                     debug_assert!(!release_regions);
+                    #[cfg(mmtk_verif)]
+                    crate::verif::verif_emit_range_release(
+                        "monotone.reset_cursor",
+                        top.align_up(BYTES_IN_PAGE),
+                        chunk_end,
+                    );
                     let mut guard = self.sync.lock().unwrap();
                     guard.current_chunk = chunk_start;
                     guard.sentinel = chunk_end;
@@ -309,6 +315,12 @@ impl<VM: VMBinding> MonotonePageResource<VM> {
                     release_regions = true;
                 } else if release_regions {
                     // release this region
+                    #[cfg(mmtk_verif)]
+                    crate::verif::verif_emit_range_release(
+                        "monotone.reset_cursor",
+                        chunk_start,
+                        chunk_end,
+                    );
                     self.common.release_discontiguous_chunks(chunk_start);
                 } else {
                     // keep this live region
